@@ -3,86 +3,259 @@ from __future__ import annotations
 import numpy as np
 
 ID = "C23"
-LEAN_MODULES = ["MjwVerif.Props.C23"]
-GEN_FUNCS = ["math.mul_quat", "math.axis_angle_to_quat", "math.quat_to_mat", "math.quat_integrate", "math.rot_vec_quat"]
+LEAN_MODULES = ["MjwVerif.Props.C23", "MjwVerif.Props.C23Kin"]
+GEN_FUNCS = ["math.mul_quat", "math.axis_angle_to_quat", "math.quat_to_mat", "math.quat_integrate", "math.rot_vec_quat",
+             "smooth._kinematics_branch"]
 LEVEL_TEXT = ("Theorems over the reals about the quaternion functions regenerated from math.py on every run: quat_integrate returns a unit quaternion "
               "for EVERY q (incl. 0 and unnormalised), v, dt (and equals normalize(q)*axis_angle(...)); quat_to_mat of a unit quaternion is orthogonal with det 1; "
-              "rot_vec_quat = quat_to_mat*v; quat_to_mat is multiplicative. The step-level conclusion (all qpos quaternions / reported matrices come from these functions) "
-              "is checked by running the real step() on random models with unnormalised quaternions (sampled, tolerance 1e-4).")
-LEVEL_NOTE = "Trusted: Lean kernel, translator (validated by func-level differential at Float32), float round-off not modelled; kernel-level use of the functions is sampled, not proved."
+              "rot_vec_quat = quat_to_mat*v; quat_to_mat is multiplicative. About the kinematics kernel regenerated from smooth.py (Props/C23Kin.lean): every value "
+              "_kinematics_branch writes to xquat_out is a unit quaternion and it writes one for EVERY body of its chain, for ALL inputs (zero / non-unit qpos, body_quat, mocap_quat) "
+              "and all bodies, joint-less and mocap bodies included (the final normalisation is unconditional: kinematics_jointless_body_step). "
+              "The rest of the step-level conclusion (all qpos quaternions / reported matrices come from these functions) is checked by running the real forward() and step() on random models in which EVERY user-writable quaternion state is unnormalised: free/ball "
+              "quaternions of qpos AND d.mocap_quat of mocap bodies (norm 0.01..50, exactly zero in rotation), different per world; the models carry mocap bodies with "
+              "geoms, sites, cameras, inertial frames, welded joint-less descendants (depth 2) and jointed descendants, joint-less bodies welded under free/ball bodies "
+              "and static bodies. Checked after forward() and after every step(): |xquat| = 1 for every body, xmat/ximat/geom_xmat/site_xmat/cam_xmat orthogonal "
+              "with det +1, |qpos quaternion| = 1 after step (tolerance 1e-4 / 2e-4, float32); and after forward() all of them against MuJoCo C "
+              "(mj_kinematics/mj_comPos/mj_camlight on the same unnormalised state, which normalises qpos and mocap quaternions), tolerance 2e-4.")
+LEVEL_NOTE = ("Trusted: Lean kernel, translator (validated by func-level differential at Float32), float round-off not modelled; kernel-level use of the functions is proved for xquat (kinematics kernel) and sampled for the derived matrices and the integrator "
+              "(sampled over quaternion state of every kind: qpos free/ball, mocap_quat; bodies with and without joints).")
 ASSUMPTIONS = [
   "theorems are over the reals; float32 results are unit/orthogonal only up to round-off (sampled with tolerance 1e-4)",
-  "the step-level conclusion (every free/ball quaternion of qpos is produced by quat_integrate, every reported orientation by quat_to_mat/mul_quat of normalised quaternions) is tied to the kernels by the sampled oracle run below, not by a theorem about the kernels",
+  "the step-level conclusion (every free/ball quaternion of qpos is produced by quat_integrate, every reported matrix by quat_to_mat/mul_quat of the unit xquat and unit model quaternions) is tied to the kernels by the sampled oracle run below; only 'xquat is unit for every body' is a theorem about the kernel (Props/C23Kin.lean, via the kernel normal form of Lemmas/C01.lean)",
+  "model constants (body_quat, geom_quat, site_quat, cam_quat, body_iquat) are unit as the MuJoCo compiler leaves them; only STATE quaternions (qpos, mocap_quat) are unnormalised",
 ]
 
+RULE = ("func-level: random float32 argument tuples (uniform/normal/special values incl. 0 and MJ_MINVAL neighbours), distinct = distinct (function, output) pairs; "
+        "step-level: random trees with free/ball/hinge joints plus, in deterministic rotation over the case index, 1 / 2 / 0 mocap bodies (each with geom, site, camera, a welded chain of "
+        "two joint-less bodies with inertial frame, and every other case a ball/hinge child with a welded child), a free body with a welded joint-less child carrying a camera, and a static body; "
+        "unnormalised qpos quaternions (norm 0.2..3) and mocap_quat (norm from {0.01, 0.2..3, 50}; exactly 0 in world 0 of every 4th case), different per world, nworld 1..3, |qvel| in {0,1,30}; "
+        "checks after forward() (validity + MuJoCo C kinematics on the same state, zero-quaternion worlds excluded from the MuJoCo comparison only) and after each of 3 (thorough 6) step()s (validity); "
+        "nontrivial = (case, stage) with at least one unnormalised quaternion in the state written by the user")
 
-def _oracle_cases(ctx, ncases, nsteps):
+_ARRS = ("xmat", "ximat", "geom_xmat", "site_xmat", "cam_xmat")
+
+
+def _q(rng, norm=1.0):
+  q = rng.normal(size=4)
+  return q * (norm / np.linalg.norm(q))
+
+
+def _fmt(x):
+  return " ".join(f"{float(v):.6g}" for v in np.atleast_1d(x))
+
+
+def _rig_xml(rng, c, acc):
+  """Extra world children forcing the rare body kinds in rotation over the case index c (all quats in the XML are unit)."""
+  nmocap = (1, 2, 0, 1, 2, 1)[c % 6]
+  out = []
+  noc = 'contype="0" conaffinity="0"'
+  for k in range(nmocap):
+    jointed = (c + k) % 2 == 1
+    out.append(f'    <body name="mc{k}" mocap="true" pos="{_fmt(rng.uniform(-1, 1, 3) + [0, 0, 2])}" quat="{_fmt(_q(rng))}">')
+    out.append(f'      <geom name="mc{k}_g" type="box" size=".1 .05 .02" pos=".02 0 .01" quat="{_fmt(_q(rng))}" {noc}/>')
+    out.append(f'      <site name="mc{k}_s" pos=".1 0 0" quat="{_fmt(_q(rng))}"/>')
+    out.append(f'      <camera name="mc{k}_c" pos="0 0 .1" quat="{_fmt(_q(rng))}"/>')
+    out.append(f'      <body name="mc{k}_w" pos=".1 0 0" quat="{_fmt(_q(rng))}">')
+    out.append(f'        <inertial pos="0.01 0 0" quat="{_fmt(_q(rng))}" mass="0.1" diaginertia="1e-3 2e-3 3e-3"/>')
+    out.append(f'        <geom name="mc{k}_wg" type="capsule" size=".01 .05" quat="{_fmt(_q(rng))}" {noc}/>')
+    out.append(f'        <site name="mc{k}_ws" pos="0 0 .05" quat="{_fmt(_q(rng))}"/>')
+    out.append(f'        <body name="mc{k}_ww" pos="0 .1 0" quat="{_fmt(_q(rng))}">')
+    out.append(f'          <geom name="mc{k}_wwg" type="sphere" size=".03" {noc}/>')
+    out.append(f'          <camera name="mc{k}_wwc" pos="0 0 .1" quat="{_fmt(_q(rng))}"/>')
+    if jointed:
+      jt = 'type="ball"' if k == 0 else f'type="hinge" axis="{_fmt(_q(rng)[:3])}"'
+      out.append(f'          <body name="mc{k}_j" pos="0 0 .1" quat="{_fmt(_q(rng))}">')
+      out.append(f'            <joint name="mc{k}_jj" {jt}/>')
+      out.append(f'            <geom name="mc{k}_jg" type="capsule" size=".02 .05" {noc}/>')
+      out.append(f'            <body name="mc{k}_jw" pos="0 0 .1" quat="{_fmt(_q(rng))}">')
+      out.append(f'              <geom name="mc{k}_jwg" type="sphere" size=".02" {noc}/>')
+      out.append(f'              <site name="mc{k}_jws" quat="{_fmt(_q(rng))}"/>')
+      out.append('            </body>')
+      out.append('          </body>')
+      acc.hit("mocap: jointed descendant with welded child")
+    out.append('        </body>')
+    out.append('      </body>')
+    out.append('    </body>')
+    acc.hit("mocap body (geom, site, camera, welded chain depth 2)")
+  if c % 2 == 0:
+    out.append(f'    <body name="fr" pos="{_fmt(rng.uniform(-1, 1, 3) + [0, 0, 3])}" quat="{_fmt(_q(rng))}">')
+    out.append('      <freejoint name="fr_j"/>')
+    out.append(f'      <geom name="fr_g" type="box" size=".05 .06 .07" {noc}/>')
+    out.append(f'      <body name="fr_w" pos=".1 0 0" quat="{_fmt(_q(rng))}">')
+    out.append(f'        <geom name="fr_wg" type="sphere" size=".03" pos=".01 .02 0" {noc}/>')
+    out.append(f'        <camera name="fr_wc" quat="{_fmt(_q(rng))}"/>')
+    out.append(f'        <site name="fr_ws" quat="{_fmt(_q(rng))}"/>')
+    out.append('      </body>')
+    out.append('    </body>')
+    acc.hit("joint-less body welded under a free body")
+  if c % 3 == 1:
+    out.append(f'    <body name="st" pos="{_fmt(rng.uniform(-1, 1, 3))}" quat="{_fmt(_q(rng))}">')
+    out.append(f'      <geom name="st_g" type="box" size=".05 .06 .07" quat="{_fmt(_q(rng))}" {noc}/>')
+    out.append(f'      <site name="st_s" quat="{_fmt(_q(rng))}"/>')
+    out.append(f'      <camera name="st_c" quat="{_fmt(_q(rng))}"/>')
+    out.append('    </body>')
+    acc.hit("static body (welded to the world)")
+  return "\n".join(out), nmocap
+
+
+def _validity(d, mjm):
+  """{array name: defect} of the reported orientations of all worlds (defect = max(|q|-1) / max(|R^T R - I|, det<=0.99))"""
+  from harness import mjw_util
+  out = {}
+  xq = d.xquat.numpy().astype(np.float64)
+  with np.errstate(invalid="ignore"):
+    e = np.abs(np.linalg.norm(xq, axis=-1) - 1)
+  out["xquat"] = float(e.max()) if np.isfinite(e).all() else float("inf")
+  for name in _ARRS:
+    a = getattr(d, name).numpy()
+    if a.size:
+      if not np.isfinite(a).all():
+        out[name] = float("inf")
+        continue
+      df, det = mjw_util.rot_defect(a)
+      out[name] = max(df, 0.0 if det > 0.99 else 1.0)
+  return out
+
+
+def _mujoco_ref(mjm, qpos, mocap_pos, mocap_quat):
+  """MuJoCo C kinematics of one world's (unnormalised) state: dict of the reported orientations"""
+  import mujoco
+  ref = mujoco.MjData(mjm)
+  ref.qpos[:] = qpos
+  if mjm.nmocap:
+    ref.mocap_pos[:] = mocap_pos
+    ref.mocap_quat[:] = mocap_quat
+  mujoco.mj_kinematics(mjm, ref)
+  mujoco.mj_comPos(mjm, ref)
+  mujoco.mj_camlight(mjm, ref)
+  return {"xquat": ref.xquat.copy(), "xmat": ref.xmat.reshape(-1, 3, 3).copy(), "ximat": ref.ximat.reshape(-1, 3, 3).copy(),
+          "geom_xmat": ref.geom_xmat.reshape(-1, 3, 3).copy(), "site_xmat": ref.site_xmat.reshape(-1, 3, 3).copy(),
+          "cam_xmat": ref.cam_xmat.reshape(-1, 3, 3).copy()}
+
+
+def _oracle_cases(ctx, ncases, nsteps, acc=None):
   import mujoco
   import mujoco_warp as mjw
   from harness.gen import models
   from harness import mjw_util
+  from harness.props.common import Acc
+  acc = acc or Acc()
   rng = np.random.default_rng(ctx.seed * 7919 + 23)
-  findings, samples, evals, nontrivial = [], [], 0, set()
   for c in range(ncases):
-    xml, sp = models.random_model_xml(rng, nbody=int(rng.integers(1, 5)), joint_types=("free", "ball", "hinge"), floor=False,
-                                      option=f'timestep="{rng.choice([0.001, 0.005, 0.02, 0.1])}" gravity="0 0 -9.81"')
+    wb, sp = models.random_tree(rng, nbody=int(rng.integers(1, 5)), joint_types=("free", "ball", "hinge"))
+    rig, nmocap = _rig_xml(rng, c, acc)
+    xml = models.wrap(wb + "\n" + rig, floor=False,
+                      option=f'timestep="{rng.choice([0.001, 0.005, 0.02, 0.1])}" gravity="0 0 -9.81"')
     mjm, mjd = mjw_util.load(xml)
-    nworld = int(rng.integers(1, 4))
-    models.random_state(rng, mjm, mjd, qvel_scale=float(rng.choice([0.0, 1.0, 30.0])), unnormalized=True)
+    assert mjm.nmocap == nmocap
+    nworld = (2, 1, 3)[c % 3] if c < 6 else int(rng.integers(1, 4))
+    # put_data copies the poses of static geoms from mjd: give it a forwarded MjData (at qpos0), then write the state into d
+    mujoco.mj_forward(mjm, mjd)
     m, d = mjw_util.put(mjm, mjd, nworld=nworld)
     # different unnormalised states per world
-    qpos = np.tile(mjd.qpos, (nworld, 1))
-    qvel = np.tile(mjd.qvel, (nworld, 1))
-    for w in range(1, nworld):
+    qpos = np.zeros((nworld, mjm.nq))
+    qvel = np.zeros((nworld, mjm.nv))
+    qvs = float(rng.choice([0.0, 1.0, 30.0]))
+    for w in range(nworld):
       tmp = mujoco.MjData(mjm)
-      models.random_state(rng, mjm, tmp, qvel_scale=5.0, unnormalized=True)
+      models.random_state(rng, mjm, tmp, qvel_scale=qvs if w == 0 else 5.0, unnormalized=True)
       qpos[w], qvel[w] = tmp.qpos, tmp.qvel
     if rng.random() < 0.2 and mjm.nv > 0:
       qvel[0, :] = 0.0  # exactly-zero angular velocity branch
+      acc.hit("qvel exactly 0 in world 0")
+    mocap_pos = np.zeros((nworld, nmocap, 3))
+    mocap_quat = np.zeros((nworld, nmocap, 4))
+    zero_world = set()
+    for w in range(nworld):
+      for k in range(nmocap):
+        mocap_pos[w, k] = mjm.body_pos[mjm.body("mc%d" % k).id] + rng.normal(size=3) * 0.3
+        norm = float(rng.choice([0.01, 50.0])) if (c + w + k) % 5 == 4 else float(rng.uniform(0.2, 3.0))
+        mocap_quat[w, k] = _q(rng, norm)
+        acc.hit("mocap_quat norm %s" % ("extreme (0.01 / 50)" if norm in (0.01, 50.0) else "0.2..3"))
+    if nmocap and c % 4 == 3:
+      mocap_quat[0, 0] = 0.0
+      zero_world.add(0)
+      acc.hit("mocap_quat exactly 0 (validity only)")
     mjw_util.set_rows(d.qpos, qpos)
     mjw_util.set_rows(d.qvel, qvel)
+    if nmocap:
+      mjw_util.set_rows(d.mocap_pos, mocap_pos)
+      mjw_util.set_rows(d.mocap_quat, mocap_quat)
     qn0 = mjw_util.quat_norms(mjm, qpos)
+    nquat = qn0.shape[1] + nmocap
+    acc.hit(f"nworld {nworld}")
+    replay = {"xml": xml, "qpos": qpos.tolist(), "qvel": qvel.tolist(), "mocap_pos": mocap_pos.tolist(), "mocap_quat": mocap_quat.tolist()}
+
+    # ---- stage 1: forward() on the user-written state
+    mjw.forward(m, d)
+    acc.evals += 1
+    if nquat:
+      acc.distinct.add((c, "forward"))
+    v = _validity(d, mjm)
+    badv = {k: e for k, e in v.items() if not e <= (1e-4 if k == "xquat" else 2e-4)}
+    if badv:
+      acc.find("forward() on a state with unnormalised quaternions reports a non-unit xquat / non-rotation matrix: "
+               + ", ".join(f"{k} defect {e:.3g}" for k, e in badv.items()), "smooth.kinematics", "nonunit-forward", **replay)
+    else:
+      # same state through MuJoCo C (normalises qpos and mocap quaternions); only meaningful when the reported values are rotations
+      got = {"xquat": d.xquat.numpy()}
+      got.update({k: getattr(d, k).numpy() for k in _ARRS})
+      for w in range(nworld):
+        if w in zero_world:
+          continue
+        ref = _mujoco_ref(mjm, qpos[w], mocap_pos[w], mocap_quat[w])
+        worst = {}
+        for k, r in ref.items():
+          if r.size == 0:
+            continue
+          g = got[k][w].astype(np.float64)
+          if k == "xquat":
+            err = np.minimum(np.abs(g - r).max(axis=-1), np.abs(g + r).max(axis=-1)).max()
+          else:
+            err = np.abs(g.reshape(r.shape) - r).max()
+          if not err <= 2e-4:
+            worst[k] = float(err)
+        acc.evals += 1
+        if worst:
+          acc.find("forward() on a state with unnormalised quaternions: orientations differ from MuJoCo C kinematics of the same state: "
+                   + ", ".join(f"{k} err {e:.3g}" for k, e in worst.items()), "smooth.kinematics", "nonunit-vs-mujoco", world=w, **replay)
+          break
+
+    # ---- stage 2: step()s
+    worst = 0.0
     for s in range(nsteps):
       mjw.step(m, d)
-      evals += 1
+      acc.evals += 1
+      if nquat:
+        acc.distinct.add((c, s))
       qn = mjw_util.quat_norms(mjm, d.qpos.numpy())
       worst = float(np.abs(qn - 1).max()) if qn.size else 0.0
-      defect = 0.0
-      for arr in (d.xmat, d.ximat, d.geom_xmat, d.site_xmat, d.cam_xmat):
-        a = arr.numpy()
-        if a.size:
-          df, det = mjw_util.rot_defect(a)
-          defect = max(defect, df, 0.0 if det > 0.99 else 1.0)
-      if qn.size:
-        nontrivial.add((c, s))
-      bad = (not np.isfinite(worst)) or worst > 1e-4 or defect > 2e-4
+      v = _validity(d, mjm)
+      badv = {k: e for k, e in v.items() if not e <= (1e-4 if k == "xquat" else 2e-4)}
+      bad = (not np.isfinite(worst)) or worst > 1e-4 or bool(badv)
       if bad:
-        findings.append({"what": f"non-unit quaternion or non-rotation after step (|norm-1|={worst:.3g}, defect={defect:.3g})",
-                         "site": "forward.step", "trigger_id": "nonunit", "xml": xml, "qpos": qpos.tolist(), "qvel": qvel.tolist(), "step": s})
+        acc.find(f"non-unit quaternion or non-rotation after step (qpos |norm-1|={worst:.3g}; "
+                 + ", ".join(f"{k} defect {e:.3g}" for k, e in badv.items()) + ")", "forward.step", "nonunit", step=s, **replay)
         break
-    if c < 2:
-      samples.append({"model_bodies": mjm.nbody, "nq": mjm.nq, "nworld": nworld, "initial_quat_norms": np.round(qn0, 3).tolist()[:1],
-                      "final_quat_norm_err": worst})
-  return evals, len(nontrivial), samples, findings
+    # mocap state is not integrated: it must still be what the user wrote
+    if nmocap and not np.array_equal(d.mocap_quat.numpy().astype(np.float32), mocap_quat.astype(np.float32)):
+      acc.hit("mocap_quat rewritten by step (allowed: normalised in place)")
+    acc.sample({"model_bodies": mjm.nbody, "nq": mjm.nq, "nmocap": nmocap, "ncam": mjm.ncam, "nworld": nworld,
+                "initial_quat_norms": np.round(qn0, 3).tolist()[:1], "mocap_quat_norms": np.round(np.linalg.norm(mocap_quat, axis=-1), 3).tolist()[:1],
+                "final_quat_norm_err": worst}, limit=2)
+  return acc
 
 
 def correspondence(ctx):
   from harness.corr import func_corr
-  fc = func_corr.run([f for f in GEN_FUNCS] + ["math.quat_inv", "math.quat_mul_axis", "math.quat_sub", "math.quat_to_vel", "math.quat_z2vec"],
+  from harness.props import common
+  fc = func_corr.run([f for f in GEN_FUNCS if f.startswith("math.")] + ["math.quat_inv", "math.quat_mul_axis", "math.quat_sub", "math.quat_to_vel", "math.quat_z2vec"],
                      ncases=256 if ctx.thorough else 48, seed=ctx.seed)
-  evals, nontriv, samples, findings = _oracle_cases(ctx, 24 if ctx.thorough else 5, 6 if ctx.thorough else 3)
-  return {
-    "evaluations": fc["evaluations"] + evals,
-    "distinct_nontrivial": fc["distinct_outputs"] + nontriv,
-    "rule": "func-level: random float32 argument tuples (uniform/normal/special values incl. 0 and MJ_MINVAL neighbours), distinct = distinct (function, output) pairs; "
-            "step-level: random trees with free/ball joints, unnormalised quaternions (norm 0.2..3), |qvel| in {0,1,30}, several worlds; nontrivial = (case, step) with at least one quaternion joint",
-    "samples": [fc["sample"]] + samples,
-    "func_level": fc["functions"],
-    "disagreements": fc["disagreements"],
-    "findings": findings,
-  }
+  acc = _oracle_cases(ctx, 24 if ctx.thorough else 5, 6 if ctx.thorough else 3)
+  return common.result(acc, RULE, fc=fc)
 
 
 def search(ctx, breaks):
-  evals, nontriv, samples, findings = _oracle_cases(ctx, 40, 8)
-  return {"oracle": "unit norm / orthogonality of the real step() outputs", "cases": evals, "outcome": "witness" if findings else "none", "findings": findings}
+  from harness.props import common
+  acc = _oracle_cases(ctx, 40, 8)
+  return common.search_result(acc, "unit norm / orthogonality of the real forward()/step() outputs (+ MuJoCo C kinematics of the same unnormalised state)")
